@@ -774,8 +774,8 @@ def report_rejection(ctx, rj):
     step = rj["rej"]["step"]
     for fl in flags:
         sig = {"clause": fl, "subsystem": c["sub"]}
-        if c.get("masked"):
-            sig["masked"] = True             # the masked space must be clean: never matches a known entry
+        if c.get("masked"):                  # the masked space must be clean: never matches a known entry
+            sig = {"clause": "masked:" + fl, "subsystem": c["sub"], "masked": True}
         ctx.report(sig, "%s [%s]" % (WHAT.get(fl, fl), c["sub"]),
                    {"case": {k: v for k, v in c.items() if k != "steps"} | {"acts": [s["act"] for s in c["steps"]]},
                     "step": step, "act": c["steps"][step - 1]["act"], "expected": rj["rej"].get("exp"),
